@@ -8,7 +8,7 @@ from ..lin import lin_eq, lin_sub, lin_add, linear
 from ..pm import src
 from ..q import FA, call_name, compare_parts, conjuncts, guard_facts, has_fact, nfact, nfacts, walk_no_nested
 
-TECHNIQUE = "def-use on the returned threshold, R-LIN integer identities for the three clamps with branch-order checks on the CFG, canonical form of the training floor, reviewed R-ARGMAX table for first-true idioms, R-ORDER on up-front validation; first-true idiom rule"
+TECHNIQUE = "def-use on the returned threshold, R-LIN integer identities for the three clamps with branch-order checks on the CFG, canonical form of the training floor, reviewed R-ARGMAX table for first-true idioms, R-ORDER on up-front validation; first-true idiom rule; log-space algebra for the weighted quantile (C17.5)"
 
 INS = tables.INS
 
